@@ -193,6 +193,8 @@ def signature(rec, residual):
     t1, t2 = rec["texts"]["t1"].split("\n"), rec["texts"]["t2"].split("\n")
     d = [l for l in difflib.unified_diff(t1, t2, lineterm="", n=0) if l[:1] in "+-" and l[:3] not in ("+++", "---")]
     msg = " | ".join(d[:2])
+  if not msg:      # only clause orig fails: what the Compare step says differs
+    msg = " ".join(e["x"] for e in rec["events"] if e["op"] == "Compare" and e["ok"] and not e["e"])
   msg = re.sub(r"line \d+", "line N", msg)
   msg = re.sub(r"verif_stub_\d+_\d+", "<stub>", msg)
   msg = re.sub(r"\s+", " ", msg)
